@@ -26,7 +26,8 @@ RULE = (
     "model exposes (checked by C08) is the input of the formulas. Non-trivial: an id without "
     "spikes exists (low / middle / highest), or factor != 1, or curated. (large) hand-made datasets "
     "with 50 001 spikes (thorough: 49 999 / 50 000 / 50 001 / 100 003) cross the 50 000-spike "
-    "batching of get_depths.")
+    "batching of get_depths; 1100 templates (thorough: 1025 / 1100 / 2049 / 3000) with curated "
+    "clusters; 70 channels (thorough: 64 / 65 / 130 / 384).")
 ASSUMPTIONS = ['float tolerance rtol 1e-5 (1e-4 for float32 waveforms)']
 
 
@@ -42,6 +43,13 @@ def _large_cases(th):
     # batching boundary of get_depths (50 000 spikes per batch): just below, at, above, two batches
     for ns in ([50001] if not th else [49999, 50000, 50001, 100003]):
         yield {'spec': D.large_spec(ns, seed=ns % 97), 'factor': 2.5, 'large': True}
+    # more than 1024 templates / cluster ids; probes with 64 and more channels
+    for nt in ([1100] if not th else [1025, 1100, 2049, 3000]):
+        yield {'spec': D.large_curated_spec(nt=nt, ns=3 * nt, seed=nt % 89), 'factor': 2.5,
+               'large': True}
+    for nc in ([70] if not th else [64, 65, 130, 384]):
+        yield {'spec': D.many_channels_spec(nc, nt=5, ns=80, seed=nc % 89), 'factor': 1e-6,
+               'large': True}
 
 
 def drivers(tier):
@@ -179,6 +187,10 @@ def classify(case, info):
     labels = ['factor:%r' % case['factor'], 'rate:%d' % s['rate']]
     if case.get('large'):
         labels.append('large:%d-spikes' % s['ns'])
+    if s['nt'] > 1024:
+        labels.append('>1024-templates')
+    if s['nc'] >= 64:
+        labels.append('>=64-channels')
     nt = False
     for p in info['empty_pos']:
         labels.append('id-without-spikes:' + p)
